@@ -35,6 +35,9 @@ open_("C03", "D3p", "C03/unsound-note@f.txt:5", ["C03/unsound-note@f.txt:6", "C0
 open_("C03", "D24", "C03/unsound-note@f.txt:4", ["C03/unsound-blame@f.txt:4"],
       "history: an AI session appends two spaces to lines 3-4 of f.txt (content committed earlier by a person); `git stash push`; a commit to another file; `git stash pop`; commit => line 4, whose content a person wrote, is credited to the session",
       "c03.ai_reindents_human_lines_then_stash_roundtrip", ["ai_ws_touch_strict"])
+open_("C03", "D36", "C03/unsound-note@src/c.rs:11", ["C03/unsound-note@src/c.rs:12", "C03/unsound-blame@src/c.rs:11", "C03/unsound-blame@src/c.rs:12", "C05/hash-without-prompt"],
+      "history (recorded script witnesses/d36_c03_1_230.json): S2 inserts 2 lines into src/c.rs (and other edits); a commit of another file only turns them into INITIAL-only pending claims; `git stash push` followed by `git stash clear` discards the work; a person types 3 lines at the same position; commit => the person's lines src/c.rs:11-12 are committed as S2, and the note lists a session hash without a prompt record",
+      "recorded:witnesses/d36_c03_1_230.json", ["stash_discard_with_initial_pending"])
 fixed("C03", "D3", "^fix: writing an empty pending set", "after a partial commit left AI lines pending, `git checkout -- f` discarded them but the stale INITIAL survived (write_initial_attributions returned early on an empty set) and lines a person typed at the same positions were committed as AI", "c03.path_checkout_then_human_types_same_lines")
 open_("C05", "D4", "C05/unparsable-note", [],
       "history: a tracked file named `---` gets one AI line and is committed => the note's attestation section contains the path line `---`, which every reader (git-ai's own parser and the spec grammar) takes for the divider: the note is unreadable (metadata is not JSON)",
